@@ -87,9 +87,9 @@ def commands(o, out):
     elif k == "complex":
         out.append(["complex", o["v"][0], o["v"][1]])
     elif k == "datetime":
-        out.append(["datetime", o["v"], "s"])
+        out.append(["datetime", o["v"], "datetime64[s]"])
     elif k == "timedelta":
-        out.append(["timedelta", o["v"], "s"])
+        out.append(["timedelta", o["v"], "timedelta64[s]"])
     elif k == "str":
         out.append(["string", o["v"]])
     elif k == "bytes":
@@ -342,7 +342,11 @@ def run_case(ctx, case):
     except AkError as e:
         ctx.violation("well-nested-history-raised", {"error": str(e)[:300], "ncommands": len(cmds)})
         return
-    s1, s2 = B1.snapshot(), B2.snapshot()
+    try:
+        s1, s2 = B1.snapshot(), B2.snapshot()
+    except AkError as e:
+        ctx.violation("well-nested-history-raised", {"error": "snapshot: " + str(e)[:300], "ncommands": len(cmds)})
+        return
     d1 = b.describe(s1)
     v1, v2 = model.value(d1), model.value(b.describe(s2))
     ctx.nontrivial(len(case["objs"]) >= 3)
@@ -382,9 +386,13 @@ def run_case(ctx, case):
         if B1.length() != 0:
             ctx.violation("clear", {"length_after_clear": B1.length()})
             return
-        for c in cmds:
-            B1.cmd(c)
-        s4 = B1.snapshot()
+        try:
+            for c in cmds:
+                B1.cmd(c)
+            s4 = B1.snapshot()
+        except AkError as e:
+            ctx.violation("clear-replay-raised", {"error": str(e)[:300]})
+            return
         # clear() is documented to keep the type knowledge: only the values are compared
         if not model.same(model.value(b.describe(s4)), v1):
             ctx.violation("clear-replay-differs", {"fresh": model.brief(v1, 300),
